@@ -58,10 +58,19 @@ def w_mas(sg):
     return x // 1000
 
 
+_EXT = {}
+
+
 def extents(sg):
     """(S, N, E, W) exact arc-seconds, (lat_inc, lon_inc) exact arc-seconds."""
-    return (Fraction(sg['s_mas'], 1000), Fraction(n_mas(sg), 1000), Fraction(sg['e_mas'], 1000),
-            Fraction(w_mas(sg), 1000), Fraction(sg['lat_inc_u'], 10 ** 6), Fraction(sg['lon_inc_u'], 10 ** 6))
+    key = (sg['s_mas'], sg['e_mas'], sg['lat_inc_u'], sg['lon_inc_u'], sg['nrows'], sg['ncols'])
+    r = _EXT.get(key)
+    if r is None:
+        if len(_EXT) > 256:
+            _EXT.clear()
+        r = _EXT[key] = (Fraction(sg['s_mas'], 1000), Fraction(n_mas(sg), 1000), Fraction(sg['e_mas'], 1000),
+                         Fraction(w_mas(sg), 1000), Fraction(sg['lat_inc_u'], 10 ** 6), Fraction(sg['lon_inc_u'], 10 ** 6))
+    return r
 
 
 def header_values(sg):
@@ -400,9 +409,14 @@ def classify_reads(lay, reads):
             continue
         blocks.add(hit)
         rel = pos - lay[hit]['nodes']
-        for b in range(rel, rel + got):
-            key = (hit, b // NODE)
-            nodes[key] = nodes.get(key, 0) | (1 << (b % NODE))
+        n0, b0 = divmod(rel, NODE)
+        if b0 + got <= NODE:                      # the usual case: the read stays inside one node
+            key = (hit, n0)
+            nodes[key] = nodes.get(key, 0) | (((1 << got) - 1) << b0)
+        else:
+            for b in range(rel, rel + got):
+                key = (hit, b // NODE)
+                nodes[key] = nodes.get(key, 0) | (1 << (b % NODE))
     return blocks, nodes, outside
 
 
